@@ -139,12 +139,16 @@ structure EvSt where
                                   -- SetContext reported a context change
   returned : List Nat := []       -- entries that have returned
   ctxSnap : List (Nat × List Nat) := []   -- per SetContext call in flight: the entries that had returned when it was invoked
+  hooks : Bool := false           -- a consumer-owned reference (composition stub `invHook`) was taken: its
+                                  -- release is not observable here, so it counts as possibly held
 deriving Repr
 
 /-- **C08 clause 3 (no leak).** At a quiescence point every release function that was returned and
 not yet called belongs to the latest resolver result; that result was not invalidated (`released()`
 called, or a SetContext invoked after it returned reported a change); it is kept only if a reference is held or
-(keep-unreferenced and no error), and the context is set. -/
+(keep-unreferenced and no error), and the context is set. (`invHook` never occurs in a history of this
+component's harness; it is the model's composition stub for consumer-owned references, whose release
+is not observable at this level, so after one the 'a reference is held' condition is not evaluated.) -/
 def monEventually : ObsMonitor Obs EvSt where
   init := {}
   step := fun m o =>
@@ -164,10 +168,11 @@ def monEventually : ObsMonitor Obs EvSt where
       let snap := ((m.ctxSnap.find? (·.1 == a)).map (·.2)).getD []
       some { m with ctxCalls := m.ctxCalls.erase a
                     inval := if upd == some true then snap ++ m.inval else m.inval }
+    | .invHook _ => some { m with hooks := true }
     | .quiesce _ =>
       let held := m.added.filter (fun r => !m.relInv.contains r)
       if m.unrel.all (fun p => some p.1 == m.latest && !m.inval.contains p.1 &&
-            (!held.isEmpty || (m.keep && p.2 == 0)) && m.ctx != some 0) then some m else none
+            (!held.isEmpty || m.hooks || (m.keep && p.2 == 0)) && m.ctx != some 0) then some m else none
     | _ => some m
 
 abbrev monC08 := (monOnce.rcBoth monHidden).rcBoth (monHeld.rcBoth monEventually)
